@@ -107,6 +107,8 @@ package mq
 // ---------------------------------------------------------------- packet decoders
 
 //@ func (*Connect).UnmarshalBinary
+//@   -- the will message is created by this call: its user property list is empty or was allocated since
+//@   invariant fresh(p.will) ==> (cap(p.will.UserProperties) == 0 || base(p.will.UserProperties) >= old($wm))
 //@   assigns *p, capelems(p.UserProperties), $elems, $alloc
 //@   ensures p.fixed == old(p.fixed)                                    #C16
 //@   ensures $elems - old($elems) <= len(data)                          #C05
